@@ -12,3 +12,10 @@ func TestC04(t *testing.T) { C04.Run(t) }
 func TestC05(t *testing.T) { C05.Run(t) }
 func TestC06(t *testing.T) { C06.Run(t) }
 func TestC09(t *testing.T) { C09.Run(t) }
+func TestC10(t *testing.T)        { C10.Run(t) }
+func TestC10Enum(t *testing.T)    { RunC10Enum(t) }
+func TestC11(t *testing.T)        { C11.Run(t) }
+func TestC11Closure(t *testing.T) { RunC11Closure(t) }
+func TestC12(t *testing.T)        { C12.Run(t) }
+func TestC13(t *testing.T)        { C13.Run(t) }
+func TestC13Closure(t *testing.T) { RunC13Closure(t) }
